@@ -146,6 +146,28 @@ class GenObj:
 # private fields (caches ...).  For registered classes the concrete twin of a view is obtained by running the
 # class's REAL constructor on the view, so that harmless representation changes do not disturb the proofs while
 # a method that leaves such a field inconsistent with the view is still caught.
+class CtxGen:
+    """the object a function decorated with contextlib.contextmanager / asynccontextmanager returns: the generator
+    function and its arguments.  `with` / `async with` run its body in line (interp.with_ctxgen)"""
+    __slots__ = ("func", "args", "kwargs")
+
+    def __init__(self, func, args, kwargs):
+        self.func, self.args, self.kwargs = func, args, kwargs
+
+
+class Choice:
+    """ite(cond, a, b) over values that have no merged symbolic form (two classes, two objects).  Made by a conditional
+    expression with a symbolic test and side-effect-free arms; it lives only in a local name, as the callee of a call
+    and as the operand of a yield - every other use resolves it by forking on cond (interp.resolve_choice)"""
+    __slots__ = ("cond", "a", "b")
+
+    def __init__(self, cond, a, b):
+        self.cond, self.a, self.b = cond, a, b
+
+    def __repr__(self):
+        return "Choice(%r, %r, %r)" % (self.cond, self.a, self.b)
+
+
 class AbstractValue:
     """a value known to the proof only through an (assumed) contract of its operations - e.g. a Python list seen
     through one tracked element.  The interpreter routes attribute access, membership, truth, list() and formatting
